@@ -34,6 +34,7 @@ def main():
     ap.add_argument("--only", default="")
     ap.add_argument("--props", default="")
     ap.add_argument("--tier", default="quick")
+    ap.add_argument("--own", action="store_true", help="only the check of the seed's own property")
     args = ap.parse_args()
     seeds = sorted(d for d in os.listdir(os.path.join(VERIF, "seeded")) if args.only in d and os.path.isdir(os.path.join(VERIF, "seeded", d)))
     results = {}
@@ -42,7 +43,7 @@ def main():
         sd = os.path.join(VERIF, "seeded", s)
         meta = json.load(open(os.path.join(sd, "meta.json")))
         prop = meta["property"]
-        props = args.props.split(",") if args.props else RELATED.get(prop, [prop])
+        props = args.props.split(",") if args.props else ([prop] if args.own else RELATED.get(prop, [prop]))
         patch = os.path.join(sd, "patch.diff")
         env = dict(os.environ, VERIF_OUT=out_dir)
         if args.scratch:
